@@ -43,6 +43,12 @@ type solver struct {
 	errors     int
 	pushed     bool
 	lastErr    string
+	// second-solver cross-check: sampled unsat verdicts are written out as
+	// stand-alone scripts that the driver re-decides on another solver
+	xdir   string
+	tag    string
+	unsatN int
+	xslow  int
 }
 
 func newSolver(timeoutMs int) *solver {
@@ -57,6 +63,8 @@ func newSolver(timeoutMs int) *solver {
 		f := strings.Fields(b)
 		s.bin, s.args = f[0], f[1:]
 	}
+	s.xdir = os.Getenv("SYMGO_XCHECK_DIR")
+	s.tag = "q"
 	s.start()
 	return s
 }
@@ -237,8 +245,48 @@ func (s *solver) check(assume *Term, neg bool) satResult {
 		s.send(fmt.Sprintf("(set-option :timeout %d)", s.timeoutMs))
 	}
 	s.solveTime += time.Since(t0)
+	if res == resUnsat && s.xdir != "" {
+		s.unsatN++
+		slow := time.Since(t0) > 500*time.Millisecond && s.xslow < 6
+		if slow {
+			s.xslow++
+		}
+		if slow || sampled125(s.unsatN) {
+			s.saveQuery(cmd)
+		}
+	}
 	return res
 }
+
+// sampled125 is true for 1,2,5,10,20,50,100,...: a log-spaced sample of the
+// worker's unsat verdicts.
+func sampled125(n int) bool {
+	for n >= 10 && n%10 == 0 {
+		n /= 10
+	}
+	return n == 1 || n == 2 || n == 5
+}
+
+// saveQuery writes everything asserted since the last reset, without the
+// earlier queries, followed by the given check command.
+func (s *solver) saveQuery(cmd string) {
+	var sb strings.Builder
+	for _, line := range strings.Split(s.transcript.String(), "\n") {
+		if strings.HasPrefix(line, "(check-sat") || strings.HasPrefix(line, "(get-value") ||
+			strings.HasPrefix(line, "(set-option :timeout") || strings.HasPrefix(line, "(reset)") || line == "" {
+			continue
+		}
+		sb.WriteString(line)
+		sb.WriteByte('\n')
+	}
+	sb.WriteString(cmd)
+	sb.WriteByte('\n')
+	name := fmt.Sprintf("%s/%s-%d-%d.smt2", s.xdir, s.tag, os.Getpid(), s.unsatN)
+	os.WriteFile(name, []byte(sb.String()), 0o644)
+}
+
+// SetQueryTag names the harness the following queries belong to.
+func (m *Machine) SetQueryTag(t string) { m.sol.tag = t }
 
 // readVerdict reads the answer to a check-sat command.
 func (s *solver) readVerdict() satResult {
